@@ -25,7 +25,7 @@ CNext == /\ UNCHANGED hist
          /\ IF IntEn(sv) THEN AnyInternal /\ UNCHANGED base
             ELSE \/ EnvStep(<<"StartAsync", 0>>) \/ EnvStep(<<"ParentCancel", 0>>) \/ EnvStep(<<"Tick", 0>>)
                  \/ \E e \in {"none", "estart"} : EnvStep(<<"StartRet", e>>)
-                 \/ \E e \in {"none", "erun"} : EnvStep(<<"RunRet", e>>)
+                 \/ \E e \in {"none", "erun"} : EnvStep(<<"RunRet", e>>) \/ EnvStep(<<"IterRet", e>>)
                  \/ \E e \in {"none", "estop"} : EnvStep(<<"StopRet", e>>)
                  \/ \E c \in Callers : EnvStep(<<"StopCall", c>>) \/ EnvStep(<<"StopRelease", c>>)
                  \/ \E l \in Lis : EnvStep(<<"AddListener", l>>) \/ EnvStep(<<"Remove", l>>) \/ EnvStep(<<"CbReturn", l>>)
